@@ -1,4 +1,5 @@
 import CkbVerif.Model.Cycles
+import CkbVerif.Lemmas.Cycles
 
 /-!
 C05 — script verdict and cycle count do not depend on how execution is chunked.
@@ -14,6 +15,17 @@ continues the same trace): that part is observed by the harness, not proved — 
   for the one-shot entry point `verify`
 * `resumable_one_shot_eq_verify_partial`: `resumable_verify` with a limit ≥ total cost completes with the
   same total as `verify`
+* `chunked_eq_unchunked`, `chunked_outcomes`, `chunked_run_completes`: the multi-group statement —
+  for every transaction and EVERY list of per-call limits, `resumable_verify` + `resume_from_state`
+  driven over the limits ends with exactly the unlimited one-shot result (or is still suspended, in an
+  invariant state), and it does end when the limits cover the atomic steps
+* `resumable_verify_budget_ge_eq_unlimited`, `resumable_verify_budget_lt_suspends`,
+  `resume_from_state_budget_ge_eq_unlimited`, `resume_from_state_budget_lt_partial`,
+  `resume_from_state_limit_is_per_call_witness`: the two budget clauses for the resumable API
+* `type_id_group_is_single_step`: the built-in TYPE_ID system script is the one-step group
+  `typeIdGroup` (cost from the source via the translator), so all statements cover TYPE_ID groups
+* `complete_budget_ge_eq_unlimited`, `complete_budget_lt_partial`: what `complete` does satisfy
+* `signal_budget_ge_eq_unlimited`: the signal path under ANY pause schedule with a sufficient budget
 * `complete_violates_budget` (finding F4), `signal_violates_budget` (finding F4b): the code as
   written does NOT satisfy `budget_lt_cost_fails` for `complete` and for the signal path — concrete
   witnesses, replayed on the real verifier by the harness (oracle classes
@@ -159,7 +171,8 @@ theorem runFull_ok_iff (g : Group) (limit : Nat) (hpos : ∀ k ∈ g.steps, 0 < 
 /-- all groups succeed on their own -/
 def AllOk (gs : List Group) : Prop := ∀ g ∈ gs, g.code = 0 ∧ ∀ k ∈ g.steps, 0 < k
 
-def totalCost (gs : List Group) : Nat := (gs.map Group.cost).sum
+-- `totalCost gs` (the sum of the group costs) is defined in `Lemmas/Cycles.lean` (`CkbVerif.Cycles.totalCost`)
+example : totalCost [⟨[2, 3], 0⟩, ⟨[4], 0⟩] = 9 := rfl
 
 theorem verifyFrom_ge (max : Nat) (gs : List Group) (cycles : Nat) (hok : AllOk gs)
     (hfit : cycles + totalCost gs ≤ max) (hmax : max < U64) :
@@ -218,6 +231,331 @@ theorem verify_budget_lt_fails (gs : List Group) (b : Nat) (hok : AllOk gs)
 
 example : verify [⟨[2, 3], 0⟩, ⟨[4], 0⟩] 9 = .ok 9 ∧ verify [⟨[2, 3], 0⟩, ⟨[4], 0⟩] 8 = .error (.exceeded 3) :=
   ⟨rfl, rfl⟩
+
+/-! ### multi-group transactions: chunked = unchunked for EVERY list of per-call limits, and the
+budget clauses of `resumable_verify` / `resume_from_state`
+
+`need gs` = the cycles an uninterrupted run needs to reach its verdict (all groups up to and
+including the first failing one; `= totalCost gs` when every group succeeds), `verdict gs 0` = that
+verdict, `TxInv gs st` = the invariant of every `TransactionState` the API returns, `st.done` = the
+cycles executed so far (`Lemmas/Cycles.lean`). No positivity or success assumption on the groups:
+the statements cover transactions in which a LATER group fails. The only side conditions are that
+the numbers are `u64`s (`… < U64`). -/
+
+/-- the one-shot `verify` with the largest budget there is (`u64::MAX`) -/
+def unlimited (gs : List Group) : Except Err Nat := verify gs (U64 - 1)
+
+/-- the unlimited one-shot run computes the verdict -/
+theorem unlimited_eq_verdict (gs : List Group) (hcost : need gs < U64) : unlimited gs = verdict gs 0 := by
+  unfold unlimited verify
+  exact verifyFrom_fits (U64 - 1) gs 0 (by omega) (by unfold U64; omega)
+
+/-- **chunked_eq_unchunked.** For every transaction (any number of groups, any traces, any exit
+codes) and EVERY list of per-call limits: `resumable_verify(l)` followed by `resume_from_state` with
+the further limits either is still suspended when the limits run out (in a state that satisfies the
+invariant, so the run can go on), or has ended with exactly the result of the one-shot `verify` with
+unlimited budget — the same total cycles on success, the same `ValidationFailure(code)` of the same
+(first failing) group otherwise; in particular never `ExceededMaximumCycles`, `Other` or
+`CyclesOverflow`. -/
+theorem chunked_eq_unchunked (gs : List Group) (l : Nat) (more : List Nat)
+    (hl : ∀ x ∈ l :: more, x < U64) (hcost : need gs < U64) :
+    drive gs l more = asResult (unlimited gs) ∨
+      ∃ st, drive gs l more = .ok (.suspended st) ∧ TxInv gs st := by
+  rw [unlimited_eq_verdict gs hcost]
+  rcases drive_sound gs hcost l more hl with h | h
+  · exact .inr h
+  · exact .inl h
+
+/-- the same, read off the three possible outcomes of the chunked run -/
+theorem chunked_outcomes (gs : List Group) (l : Nat) (more : List Nat)
+    (hl : ∀ x ∈ l :: more, x < U64) (hcost : need gs < U64) :
+    (∀ n, drive gs l more = .ok (.completed n) → unlimited gs = .ok n) ∧
+    (∀ e, drive gs l more = .error e → unlimited gs = .error e) ∧
+    (∀ st, drive gs l more = .ok (.suspended st) → TxInv gs st) := by
+  rcases chunked_eq_unchunked gs l more hl hcost with h | ⟨st, h, hinv⟩
+  · rw [h]
+    cases hu : unlimited gs with
+    | ok m => simp [asResult]
+    | error e => simp [asResult]
+  · rw [h]
+    refine ⟨by simp, by simp, ?_⟩
+    intro st' hst'
+    cases hst'
+    exact hinv
+
+/-- **chunked_run_completes.** The chunked run does end: if every atomic step costs something and
+fits into every limit, `need gs` further calls are enough (each call executes at least one step), and
+the result is the unlimited one-shot result. -/
+theorem chunked_run_completes (gs : List Group) (l : Nat) (more : List Nat)
+    (hl : ∀ x ∈ l :: more, x < U64) (hcost : need gs < U64)
+    (hpos : ∀ g ∈ gs, ∀ k ∈ g.steps, 0 < k)
+    (hbig : ∀ g ∈ gs, ∀ k ∈ g.steps, ∀ x ∈ l :: more, k ≤ x)
+    (hlen : need gs ≤ more.length) :
+    drive gs l more = asResult (unlimited gs) := by
+  rw [unlimited_eq_verdict gs hcost]
+  have hl0 := hl l List.mem_cons_self
+  have hmore : ∀ x ∈ more, x < U64 := fun x hx => hl x (List.mem_cons_of_mem _ hx)
+  unfold drive
+  by_cases hfit : need gs ≤ l
+  · rw [resumableVerify_fits gs l hl0 hfit]
+    cases verdict gs 0 <;> simp [asResult]
+  · obtain ⟨st, h1, h2, _⟩ := resumableVerify_short gs l hl0 hcost (by omega)
+    rw [h1]
+    exact driveFrom_completes gs hcost more hmore hpos
+      (fun g hg k hk x hx => hbig g hg k hk x (List.mem_cons_of_mem _ hx)) st h2 (by omega)
+
+-- the hypotheses of `chunked_run_completes` are satisfiable: steps cost 1..2, every limit is 2, need = 5,
+-- five further calls
+example : drive [⟨[1, 2], 0⟩, ⟨[2], 0⟩] 2 [2, 2, 2, 2, 2] = asResult (unlimited [⟨[1, 2], 0⟩, ⟨[2], 0⟩]) :=
+  chunked_run_completes _ 2 [2, 2, 2, 2, 2] (by decide) (by decide) (by decide) (by decide) (by decide)
+example : drive [⟨[1, 2], 0⟩, ⟨[2], 0⟩] 2 [2, 2, 2, 2, 2] = .ok (.completed 5) := rfl
+-- three groups, limits of all sizes (one of them too small to make progress): same total as one shot
+example : drive [⟨[3, 4, 5], 0⟩, ⟨[2, 2], 0⟩, ⟨[6], 0⟩] 4 [5, 1, 9, 3, 100] = .ok (.completed 22) ∧
+    unlimited [⟨[3, 4, 5], 0⟩, ⟨[2, 2], 0⟩, ⟨[6], 0⟩] = .ok 22 := ⟨rfl, rfl⟩
+-- a later group fails: the same failure whatever the chunking, the group after it is never run
+example : drive [⟨[3, 4], 0⟩, ⟨[2], 0⟩, ⟨[5, 1], 7⟩, ⟨[9], 0⟩] 1 [5, 5, 5, 5, 5, 5] = .error (.validation 7) ∧
+    drive [⟨[3, 4], 0⟩, ⟨[2], 0⟩, ⟨[5, 1], 7⟩, ⟨[9], 0⟩] 15 [] = .error (.validation 7) ∧
+    unlimited [⟨[3, 4], 0⟩, ⟨[2], 0⟩, ⟨[5, 1], 7⟩, ⟨[9], 0⟩] = .error (.validation 7) := ⟨rfl, rfl, rfl⟩
+-- limits that run out: still suspended, in group 1 with 2 of its 4 cycles consumed
+example : drive [⟨[3, 4, 5], 0⟩, ⟨[2, 2], 0⟩] 7 [7] = .ok (.suspended ⟨1, ⟨2, [2]⟩, 12, 2⟩) := rfl
+example : need [⟨[3, 4], 0⟩, ⟨[2], 0⟩, ⟨[5, 1], 7⟩, ⟨[9], 0⟩] = 15 ∧
+    totalCost [⟨[3, 4], 0⟩, ⟨[2], 0⟩, ⟨[5, 1], 7⟩, ⟨[9], 0⟩] = 24 := by decide
+
+/-! #### `verify(max_cycles)` for ANY transaction (failing groups included) -/
+
+/-- **verify_budget_ge_eq_unlimited_any.** budget ≥ the cycles needed (up to and including the first
+failing group): `verify` returns exactly the unlimited result — the total, or the same failure -/
+theorem verify_budget_ge_eq_unlimited_any (gs : List Group) (b : Nat) (hb : b < U64) (hge : need gs ≤ b) :
+    verify gs b = unlimited gs := by
+  rw [unlimited_eq_verdict gs (by omega)]
+  exact verifyFrom_fits b gs 0 (by omega) hb
+
+/-- **verify_budget_lt_fails_any.** budget below the cycles needed: `verify` never succeeds, never
+reports the script's own failure either, and reports the cycle limit (payload: what was left of the
+budget for the group that did not fit) -/
+theorem verify_budget_lt_fails_any (gs : List Group) (b : Nat) (hb : b < U64) (hlt : b < need gs) :
+    ∃ l, verify gs b = .error (.exceeded l) ∧ l ≤ b := by
+  obtain ⟨l, h1, h2⟩ := verifyFrom_short b gs 0 (by omega) (by omega) hb
+  exact ⟨l, h1, by omega⟩
+
+example : verify [⟨[3, 4], 0⟩, ⟨[5, 1], 7⟩, ⟨[9], 0⟩] 13 = .error (.validation 7) ∧
+    verify [⟨[3, 4], 0⟩, ⟨[5, 1], 7⟩, ⟨[9], 0⟩] 12 = .error (.exceeded 5) := ⟨rfl, rfl⟩
+
+/-! #### `resumable_verify(limit)` -/
+
+/-- **resumable_verify_budget_ge_eq_unlimited.** a limit of at least the cycles needed: the call
+completes in one go with exactly the unlimited result (which is also what `verify` gives with this
+budget) -/
+theorem resumable_verify_budget_ge_eq_unlimited (gs : List Group) (b : Nat) (hb : b < U64)
+    (hge : need gs ≤ b) :
+    resumableVerify gs b = asResult (unlimited gs) ∧ resumableVerify gs b = asResult (verify gs b) := by
+  have h1 := resumableVerify_fits gs b hb hge
+  have h2 : verify gs b = verdict gs 0 := verifyFrom_fits b gs 0 (by omega) hb
+  rw [unlimited_eq_verdict gs (by omega), h2]
+  exact ⟨h1, h1⟩
+
+/-- **resumable_verify_budget_lt_suspends.** a limit below the cycles needed: the call never
+completes (and never fails): it reports the limit by returning `Suspended`, with a state that
+satisfies the invariant, after at most `b` cycles, and the recorded `limit_cycles` is within `b`;
+the one-shot `verify` with the same budget fails with `ExceededMaximumCycles` -/
+theorem resumable_verify_budget_lt_suspends (gs : List Group) (b : Nat) (hb : b < U64)
+    (hcost : need gs < U64) (hlt : b < need gs) :
+    (∃ st, resumableVerify gs b = .ok (.suspended st) ∧ TxInv gs st ∧ st.done ≤ b ∧ st.limitCycles ≤ b) ∧
+    (∃ l, verify gs b = .error (.exceeded l) ∧ l ≤ b) := by
+  refine ⟨resumableVerify_short gs b hb hcost hlt, ?_⟩
+  obtain ⟨l, h1, h2⟩ := verifyFrom_short b gs 0 (by omega) (by omega) hb
+  exact ⟨l, h1, by omega⟩
+
+/-- for a transaction whose groups all succeed `need` is the total cost: below it `resumable_verify`
+never returns `Completed` -/
+theorem resumable_verify_never_completes_below_cost (gs : List Group) (b : Nat) (hb : b < U64)
+    (hok : ∀ g ∈ gs, g.code = 0) (hcost : totalCost gs < U64) (hlt : b < totalCost gs) (n : Nat) :
+    resumableVerify gs b ≠ .ok (.completed n) := by
+  rw [← need_of_ok gs hok] at hcost hlt
+  obtain ⟨⟨st, h, _⟩, _⟩ := resumable_verify_budget_lt_suspends gs b hb hcost hlt
+  rw [h]; simp
+
+example : resumableVerify [⟨[2, 3], 0⟩, ⟨[4], 0⟩] 9 = .ok (.completed 9) ∧
+    resumableVerify [⟨[2, 3], 0⟩, ⟨[4], 0⟩] 8 = .ok (.suspended ⟨1, ⟨0, [4]⟩, 5, 3⟩) ∧
+    resumableVerify [⟨[2, 3], 0⟩, ⟨[4], 5⟩] 9 = .error (.validation 5) := ⟨rfl, rfl, rfl⟩
+
+/-! #### `resume_from_state(state, limit)`
+
+As coded the limit of `resume_from_state` is a limit for THIS CALL: the resumed group gets the whole
+`limit_cycles`, whatever was consumed before the suspension. The two clauses therefore hold with
+"cost" = what is still needed from the state on (`need gs − st.done`); read as a budget for the whole
+transaction the `<` clause fails (`resume_from_state_limit_is_per_call_witness`). -/
+
+/-- **resume_from_state_budget_ge_eq_unlimited.** from any state the API returned: a limit of at
+least what is still needed completes with exactly the unlimited one-shot result -/
+theorem resume_from_state_budget_ge_eq_unlimited (gs : List Group) (st : TxState) (b : Nat)
+    (hinv : TxInv gs st) (hb : b < U64) (hcost : need gs < U64) (hge : need gs ≤ st.done + b) :
+    resumeFromState gs st b = asResult (unlimited gs) := by
+  rw [unlimited_eq_verdict gs hcost]
+  exact resumeFromState_fits gs st b hinv hb hcost hge
+
+/-- **resume_from_state_budget_lt_partial.** from any state the API returned: a limit below what is
+still needed never completes and never fails: the call reports the limit by returning `Suspended`
+again (invariant kept, at most `b` more cycles executed, recorded `limit_cycles ≤ b`).
+Partial: "budget" is the per-call limit against the cycles still needed; for a whole-transaction
+budget the clause is false as coded, see `resume_from_state_limit_is_per_call_witness`. -/
+theorem resume_from_state_budget_lt_partial (gs : List Group) (st : TxState) (b : Nat)
+    (hinv : TxInv gs st) (hb : b < U64) (hcost : need gs < U64) (hlt : st.done + b < need gs) :
+    ∃ st', resumeFromState gs st b = .ok (.suspended st') ∧ TxInv gs st' ∧
+      st.done ≤ st'.done ∧ st'.done ≤ st.done + b ∧ st'.limitCycles ≤ b := by
+  obtain ⟨st', h1, h2, h3, h4, h5, _⟩ := resumeFromState_short gs st b hinv hb hcost hlt
+  exact ⟨st', h1, h2, h3, h4, h5⟩
+
+/-- **resume_from_state_limit_is_per_call_witness.** one group of cost 2 suspended after 1 cycle:
+`resume_from_state(state, 1)` completes with 2 cycles although 1 is below the transaction's cost —
+the limit counts from the resumption, not from the start of the transaction (same arithmetic as F4
+in `complete`, but here it is the documented per-call meaning: callers that want a whole-transaction
+budget must subtract `current_cycles` and the cycles consumed inside the group themselves). -/
+theorem resume_from_state_limit_is_per_call_witness :
+    ∃ (gs : List Group) (st : TxState) (b total : Nat),
+      AllOk gs ∧ b < totalCost gs ∧
+      resumableVerify gs 1 = .ok (.suspended st) ∧ resumeFromState gs st b = .ok (.completed total) ∧
+      b < total := by
+  refine ⟨[⟨[1, 1], 0⟩], ⟨0, ⟨1, [1]⟩, 0, 1⟩, 1, 2, ?_, by decide, rfl, rfl, by decide⟩
+  intro g hg
+  simp only [List.mem_singleton] at hg
+  subst hg
+  exact ⟨rfl, by decide⟩
+
+-- a state returned by `resumable_verify 8`: 4 cycles are still needed
+example : resumeFromState [⟨[2, 3], 0⟩, ⟨[4], 0⟩] ⟨1, ⟨0, [4]⟩, 5, 3⟩ 4 = .ok (.completed 9) ∧
+    resumeFromState [⟨[2, 3], 0⟩, ⟨[4], 0⟩] ⟨1, ⟨0, [4]⟩, 5, 3⟩ 3 = .ok (.suspended ⟨1, ⟨0, [4]⟩, 5, 3⟩) :=
+  ⟨rfl, rfl⟩
+example : TxInv [⟨[2, 3], 0⟩, ⟨[4], 0⟩] ⟨1, ⟨0, [4]⟩, 5, 3⟩ :=
+  ⟨[⟨[2, 3], 0⟩], ⟨[4], 0⟩, [], rfl, rfl, by simp, rfl, rfl, by simp, by simp⟩
+
+/-! #### the built-in TYPE_ID system script is a one-step group -/
+
+/-- **type_id_group_is_single_step.** `TypeIdSystemScript::verify` as coded (cycle test first, then
+the argument checks, constant cost `TYPE_ID_CYCLES` taken from the source by the translator) is
+exactly `run` on the group `typeIdGroup code`, and `verify_group_with_chunk`'s treatment of it
+(`Completed(c, c)` / `Suspended(None)` / error) is exactly `chunk_run` on that group, whether started
+fresh or from the stateless suspension — so every theorem of this file applies to transactions that
+contain TYPE_ID groups. -/
+theorem type_id_group_is_single_step (m : Nat) (code : Int) :
+    runFull (typeIdGroup code) m = typeIdVerify m code ∧
+    chunkRun (typeIdGroup code) m none =
+      (match typeIdChunk m code with
+       | .ok (some (u, c)) => .ok (.completed u c)
+       | .ok none => .ok (.suspended ⟨0, (typeIdGroup code).steps⟩)
+       | .error e => .error e) ∧
+    chunkRun (typeIdGroup code) m (some ⟨0, (typeIdGroup code).steps⟩) = chunkRun (typeIdGroup code) m none := by
+  refine ⟨?_, ?_, rfl⟩
+  · unfold runFull typeIdGroup typeIdVerify runSteps
+    by_cases h : Gen.Cycles.TYPE_ID_CYCLES ≤ m
+    · have h' : ¬ m < Gen.Cycles.TYPE_ID_CYCLES := by omega
+      simp [h, h', runSteps]
+    · have h' : m < Gen.Cycles.TYPE_ID_CYCLES := by omega
+      simp [h, h']
+  · unfold chunkRun typeIdGroup typeIdChunk typeIdVerify runSteps
+    by_cases h : Gen.Cycles.TYPE_ID_CYCLES ≤ m
+    · have h' : ¬ m < Gen.Cycles.TYPE_ID_CYCLES := by omega
+      by_cases hc : code = 0 <;> simp [h, h', hc, runSteps]
+    · have h' : m < Gen.Cycles.TYPE_ID_CYCLES := by omega
+      simp [h, h']
+
+example : verify [⟨[537], 0⟩, typeIdGroup 0] 1000537 = .ok 1000537 ∧
+    verify [⟨[537], 0⟩, typeIdGroup 0] 1000536 = .error (.exceeded 999999) ∧
+    drive [⟨[537], 0⟩, typeIdGroup (-3)] 600 [999999, 1000000] = .error (.validation (-3)) := ⟨rfl, rfl, rfl⟩
+
+/-! #### `complete(state, max_cycles)`: the clause it does satisfy, and how far the other one goes -/
+
+/-- **complete_budget_ge_eq_unlimited.** from any state the API returned, a budget of at least the
+cycles the whole transaction needs: `complete` returns exactly the unlimited one-shot result -/
+theorem complete_budget_ge_eq_unlimited (gs : List Group) (st : TxState) (b : Nat)
+    (hinv : TxInv gs st) (hb : b < U64) (hge : need gs ≤ b) :
+    complete gs st b = unlimited gs := by
+  rw [unlimited_eq_verdict gs (by omega)]
+  obtain ⟨pre, g, post, hgs, hcur, hpre, hcyc, hcost, hne, hsuf⟩ := hinv
+  subst hgs
+  unfold complete
+  rw [hcur, getElem?_at_split]
+  simp only
+  rw [need_at_state pre g post hpre] at hge
+  have hstart : startOf g (some st.state) = st.state := rfl
+  rw [verdict_append_ok pre _ 0 hpre]
+  unfold verdict
+  by_cases hg : g.code = 0
+  · simp only [hg, if_true] at hge ⊢
+    have hnot : ¬ b < st.currentCycles := by omega
+    simp only [hnot, if_false]
+    rw [chunkRun_fits g _ (some st.state) (by rw [hstart]; omega)]
+    simp only [hg, if_true, hstart]
+    rw [hcost, hcyc, cyclesAdd_ok _ _ (by omega), drop_at_split]
+    simp only
+    rw [completeLoop_fits b post _ (by omega) hb]
+    simp
+  · simp only [hg, if_false] at hge ⊢
+    have hnot : ¬ b < st.currentCycles := by omega
+    simp only [hnot, if_false]
+    rw [chunkRun_fits g _ (some st.state) (by rw [hstart]; omega)]
+    simp [hg]
+
+/-- **complete_budget_lt_partial.** from any state the API returned: a budget that is below the
+need by MORE than the cycles already consumed inside the suspended group never succeeds, and the
+error is the cycle limit with the whole budget as payload (or `Other("expect invalid cycles")` when
+the over-generous resumed group has overdrawn the budget before the next group starts).
+Partial: in the window `need − consumed ≤ b < need` the clause is FALSE as coded —
+`complete_violates_budget` (F4). -/
+theorem complete_budget_lt_partial (gs : List Group) (st : TxState) (b : Nat)
+    (hinv : TxInv gs st) (hb : b < U64) (hcost : need gs < U64)
+    (hlt : b + st.state.consumed < need gs) :
+    complete gs st b = .error (.exceeded b) ∨ complete gs st b = .error .other := by
+  obtain ⟨pre, g, post, hgs, hcur, hpre, hcyc, hcostg, hne, hsuf⟩ := hinv
+  subst hgs
+  unfold complete
+  rw [hcur, getElem?_at_split]
+  simp only
+  rw [need_at_state pre g post hpre] at hlt hcost
+  have hstart : startOf g (some st.state) = st.state := rfl
+  by_cases hover : b < st.currentCycles
+  · simp [hover]
+  · simp only [hover, if_false]
+    by_cases hfit : st.state.rest.sum ≤ b - st.currentCycles
+    · have hg : g.code = 0 := by
+        apply Classical.byContradiction
+        intro hne
+        simp only [hne, if_false] at hlt
+        omega
+      simp only [hg, if_true] at hlt hcost
+      rw [chunkRun_fits g _ (some st.state) (by rw [hstart]; exact hfit)]
+      simp only [hg, if_true, hstart]
+      rw [hcostg, hcyc, cyclesAdd_ok _ _ (by omega), drop_at_split]
+      simp only
+      by_cases hin : totalCost pre + g.cost ≤ b
+      · left
+        exact completeLoop_short b post _ hin (by omega) hb
+      · cases post with
+        | nil => simp [need] at hlt; omega
+        | cons g' post' => right; exact completeLoop_over b g' post' _ (by omega)
+    · obtain ⟨s', h1, _⟩ := chunkRun_short g (b - st.currentCycles) (some st.state) (by rw [hstart]; omega)
+      rw [h1]
+      simp
+
+-- state of `resumable_verify 8` on two groups (cost 9): budget 9 completes, budget 8 is refused
+example : complete [⟨[2, 3], 0⟩, ⟨[4], 0⟩] ⟨1, ⟨0, [4]⟩, 5, 3⟩ 9 = .ok 9 ∧
+    complete [⟨[2, 3], 0⟩, ⟨[4], 0⟩] ⟨1, ⟨0, [4]⟩, 5, 3⟩ 8 = .error (.exceeded 8) := ⟨rfl, rfl⟩
+-- the overdrawn case: group 0 suspended after 3 of its 7 cycles, budget 5: `Other`
+example : complete [⟨[3, 4], 0⟩, ⟨[2], 0⟩] ⟨0, ⟨3, [4]⟩, 0, 3⟩ 5 = .error .other := rfl
+
+/-! #### the signal path: any pause/resume schedule, sufficient budget -/
+
+/-- **signal_budget_ge_eq_unlimited.** `resumable_verify_with_signal` with a budget of at least the
+cycles needed returns exactly the unlimited one-shot result whatever Suspend/Resume signals arrive
+(any pause schedule for every group); with `b = u64::MAX` this is "pausing and resuming never changes
+verdict or total". (The `<` clause is false for this path: `signal_violates_budget`, F4b.) -/
+theorem signal_budget_ge_eq_unlimited (sched : List (Group × List (Option Nat))) (b : Nat)
+    (hb : b < U64) (hge : need (sched.map Prod.fst) ≤ b) :
+    signalVerify b sched 0 = unlimited (sched.map Prod.fst) := by
+  rw [unlimited_eq_verdict _ (by omega)]
+  exact signalVerify_fits b sched 0 (by omega) hb
+
+example : signalVerify 9 [(⟨[2, 3], 0⟩, [some 1, some 2, none]), (⟨[1, 3], 0⟩, [some 0, some 0])] 0 = .ok 9 := rfl
 
 /-! ### the code as written violates the budget clause for `complete` and for the signal path -/
 
